@@ -83,6 +83,12 @@ def build_cases(tier):
     C.append(fp_case('math_Floor', 'math.Floor(x0)', rti('RTN')))
     C.append(fp_case('math_Ceil', 'math.Ceil(x0)', rti('RTP')))
     C.append(fp_case('math_Trunc', 'math.Trunc(x0)', rti('RTZ')))
+    # Modf: integer and fractional part, both with the sign of the argument, summing to it; (Inf, NaN) for infinities
+    ipart = lambda x: '(fp.roundToIntegral RTZ %s)' % x
+    fpart = lambda x: '(let ((r (fp.sub RNE %s (fp.roundToIntegral RTZ %s)))) (ite (fp.isZero r) (ite (fp.isNegative %s) (fp.neg ((_ to_fp 11 53) RNE 0.0)) ((_ to_fp 11 53) RNE 0.0)) r))' % (x, x, x)
+    C.append(fp_case('math_Modf_int', 'func() float64 { i, _ := math.Modf(x0); return i }()', ipart))
+    C[-1].z3_timeout_ms = 150000          # x - (x - trunc(x)) = trunc(x): two bit-blasted subtractions, ~30-60 s one-shot
+    C.append(fp_case('math_Modf_frac', 'func() float64 { _, f := math.Modf(x0); return f }()', fpart))
     C.append(fp_case('math_Sqrt', 'math.Sqrt(x0)', lambda x: '(fp.sqrt RNE %s)' % x))
     C.append(fp_case('math_Copysign', 'math.Copysign(x0, x1)', lambda x, y: '(ite (= (fp.isNegative %s) (fp.isNegative %s)) %s (fp.neg %s))' % (x, y, x, x), nargs=2))
     C.append(fp_case('math_Signbit', 'math.Signbit(x0)', lambda x: '(and (not (fp.isNaN %s)) (fp.isNegative %s))' % (x, x), kind='bool'))
@@ -141,7 +147,7 @@ def main():
                                bounds={'arguments': 'all values (uint32 / int32 / int64 / every float64 incl. NaN, infinities, signed zeros, subnormals); bits.Div32/Rem32: hi<16, lo<256, y<64 in the quick tier, full width in the thorough tier',
                                        'unicode': 'runes 0..0x%x (round-trip laws), exact tables for ASCII and Latin Extended-A' % (0x250 if tier == 'quick' else 0x530),
                                        'nosync': 'operation histories chosen by a symbolic selector (<= 6 operations)',
-                                       'outside': 'exp/log/trigonometric/pow functions (ECMAScript leaves their accuracy implementation-defined: no exact oracle); Frexp/Ldexp/Mod/Modf/Float64bits (typed-array bit aliasing is not modelled by the engine)'},
+                                       'outside': 'exp/log/trigonometric/pow functions (ECMAScript leaves their accuracy implementation-defined: no exact oracle); Frexp/Mod/Float64bits (typed-array bit aliasing and fmod by a symbolic divisor are not modelled by the engine)'},
                                cfg={'maxDepth': 800, 'maxPaths': 5000, 'timeoutMs': 20000, 'maxWallMs': 600000}, z3_timeout_ms=60000)
 
 
